@@ -115,6 +115,25 @@ pub fn run_circuit(case: &Value) -> Value {
             }
             json!({"r": "ok", "outs": outs, "pending": b.gates.iter().map(cls).collect::<Vec<_>>(), "classes": pool.iter().map(cls).collect::<Vec<_>>()})
         }
+        // a history of Circuit::add_gate / add_gates on ONE circuit object: after every operation its outcome and the gates held
+        "circ_history" => {
+            let pool: Vec<Gate> = case["pool"].as_array().unwrap().iter().map(|d| make_gate(d).unwrap().0).collect();
+            let key = |g: &Gate| format!("{:?}", g);
+            let keys: Vec<String> = pool.iter().map(key).collect();
+            let cls = |g: &Gate| -> i64 { let k = key(g); keys.iter().position(|x| *x == k).map(|p| p as i64).unwrap_or(-1) };
+            let mut c = Circuit::new(vu(&case["n"]));
+            let mut outs: Vec<Value> = vec![];
+            for o in case["ops"].as_array().unwrap() {
+                let ids = |v: &Value| -> Vec<Gate> { vus(v).iter().map(|&i| pool[i].clone()).collect() };
+                let r = match o["o"].as_str().unwrap() {
+                    "add_gate" => c.add_gate(pool[vu(&o["i"])].clone()).map(|_| ()),
+                    "add_gates" => c.add_gates(ids(&o["is"])).map(|_| ()),
+                    x => return json!({"r": "harness_error", "e": format!("circ_history op {}", x)}),
+                };
+                outs.push(json!({"ok": r.is_ok(), "ids": c.get_gates().iter().map(cls).collect::<Vec<_>>()}));
+            }
+            json!({"r": "ok", "outs": outs, "classes": pool.iter().map(cls).collect::<Vec<_>>()})
+        }
         m => json!({"r": "harness_error", "e": format!("circuit mode {}", m)}),
     };
     quant_iron::verif_hooks::PARALLEL_THRESHOLD.set(10);
